@@ -15,6 +15,7 @@ CONFIG = {
         "modelled, not verified: protoreflect Has/Get/Range (CodecTypes presence algebra), j5schema ClientProperties (the environment is dumped from the real reflector for every run), strconv.FormatInt/FormatUint, encoding/base64, time.Unix/Format, fmt %04d/%02d, utf8.DecodeRuneInString — each has its own correspondence stream",
     ],
     "assumptions": [
+        "schemas of the run: fixed roots of /repo's test schema and of verif.wide.v1 plus schemas generated per seed (random j5s packages compiled with the real compiler; random raw descriptors), every message type the reflector accepts being a root",
         "model/CodecEnc.v is the hand-written model of encoder.go, structure_encode.go, scalarGoFromReflect and the RangeValues/GetOne presence walk; tied to the code by the correspondence stream of this run and by the regenerated switch tables",
         "the specification model/CodecEncSpec.v (wire_format) is declarative; its per-type JSON token class is proved equal to the README table regenerated on every run",
         "embedded j5_json texts are compact JSON (raw_root); oneof schemas list members with a proto path (oneofs_flat, checked on every environment of the run)",
